@@ -232,8 +232,15 @@ func planFaults(ctx context.Context, r *rec.Rand, env *scen.Env, s *scen.Scenari
 			cctx, cancel := context.WithTimeout(ctx, 20*time.Second)
 			_, _ = q.Execute(cctx, params(env, s, o.Obj, o.Rel, o.User))
 			cancel()
+			// goroutines of the engine may still be draining iterators: snapshot under the lock
+			ds.mu.Lock()
+			counts := make(map[string]int, len(ds.counts))
+			for k, v := range ds.counts {
+				counts[k] = v
+			}
+			ds.mu.Unlock()
 			var keys, skeys []string
-			for k := range ds.counts {
+			for k := range counts {
 				keys = append(keys, k)
 				if k[0] == 'S' {
 					skeys = append(skeys, k)
@@ -248,7 +255,7 @@ func planFaults(ctx context.Context, r *rec.Rand, env *scen.Env, s *scen.Scenari
 			if len(skeys) > 0 && r.Chance(2, 3) {
 				key = rec.Pick(r, skeys) // user-side reads feed the bottom-up merges
 			}
-			n := ds.counts[key]
+			n := counts[key]
 			if n > 5 {
 				n = 5
 			}
@@ -277,9 +284,11 @@ func runFaults(ctx context.Context, w *rec.Writer, in *scen.Intern, env *scen.En
 				break
 			}
 			fired := 0
+			ds.mu.Lock()
 			if ds.fired {
 				fired = 1
 			}
+			ds.mu.Unlock()
 			w.Stat("fault_runs", 1)
 			w.Stat("fault_runs_"+[]string{"rswu", "rut", "read"}[opCode(p.Key)], 1)
 			if fired == 1 {
